@@ -263,6 +263,7 @@ var hostileConstants = []string{
 	"SET a = foo(:x)", "SET a = size(a)", "SET (a) = :x", "SET a = (:x)", "REMOVE a b", "ADD a :x :y", "SET a = :x junk", "SET a = :x )", "SET a[ = :x",
 	strings.Repeat("(", 2000), strings.Repeat("(", 1000) + "a = :x" + strings.Repeat(")", 1000), strings.Repeat("NOT ", 1000) + "a = :x",
 	strings.Repeat("a = :x AND ", 300) + "a = :x", strings.Repeat("a.", 2000), "a = :x" + strings.Repeat(" ", 4000), strings.Repeat("a", 4096),
+	"SET a = :x set b = :y", "set a = :x SET b = :y", "REMOVE a remove b", "ADD n :v1 SET a = :x add n :v1", "Set a = :x SET b = :y", "DELETE ss :v4 Delete ss :v4",
 	"#cyc = :x", "attribute_exists(#cyc)", "SET #cyc = :x", "REMOVE #cyc", "#ch1 = :x", "SET a = #ch2", "#cyc.k = :x", "a.#ch1 = :x",
 	"SET l[:big] = :x", "REMOVE l[:big]", "l[:big] = :x", "SET l[:neg1] = :x", "REMOVE l[:frac]", "SET l[:huge] = :x", "l[:v1] = :x", "SET l[:v1] = :x", "REMOVE m.k[:big]",
 	"contains(l, nosuchfn(a))", "contains(l, NOT a)", "contains(ss, size())", "begins_with(s, nosuchfn(a))", "SET a = if_not_exists(a, nosuchfn(:x))", "SET a = if_not_exists(a, size())",
